@@ -1,8 +1,22 @@
-(* C06 — every input yields output or a diagnostic: no crash, no hang (parser side).
-   The model returns hazards as values (Model/Comb.v PPanic/PFuel, Model/ParseLedger.v
-   LPanic/LDiverge/LFuel); these theorems say they are unreachable, for every text. *)
-From Coq Require Import List NArith.
-From Okv Require Import Model.Syntax Model.Comb Model.ParseExpr Model.ParseLedger Proofs.ParseTotal.
+(* C06 — every input yields output or a diagnostic: no crash, no hang.
+   Gallina functions terminate, so "the model returns" says nothing; the content is that the
+   models carry every hazard of the Rust as a VALUE — a panic (winnow's asserts, Decimal `/` by
+   zero, unreachable!(), a usize subtraction), an endless loop, an exhausted recursion budget —
+   and these theorems say those values are unreachable, for every input.
+   Models: parser Model/Comb.v + Parse*.v (PPanic/PFuel, LPanic/LDiverge/LFuel); loader
+   Model/Load.v `loadc` (OutOfFuel); book-keeping Model/Book.v + Model/Named.v (Panic/NPanic);
+   price repository Model/PriceDb.v + Model/PriceHazard.v (None = division by zero; PTOutOfFuel);
+   queries Model/Convert.v (COutOfFuel); printer Model/Display.v (balance_underflow);
+   literals Model/Lit.v; the commands end to end Model/Lower.v `pipeline` (PlHazard). *)
+From Coq Require Import List NArith ZArith Bool QArith Qcanon.
+From Okv Require Import Base.Maps Base.Dec Model.Lit Model.Syntax Model.Comb Model.ParseExpr Model.ParseLedger
+     Model.Load Model.Amount Model.Book Model.Query Model.PriceDb Model.PriceHazard Model.Convert
+     Model.Intern Model.Named Model.Display Model.DisplaySpec Model.Lower
+     Proofs.ParseTotal Proofs.LitShow Proofs.TotalLoad Proofs.TotalReport Proofs.TotalFormat
+     Proofs.TotalLit Proofs.TotalPipeline.
+Import ListNotations.
+
+(* ---------- parsing ---------- *)
 
 (* parse_ledger s is LOk or LErr: winnow's "repeat parsers must always consume" assertion never
    fires (every loop body consumes), the entry iterator always advances, compute_line_number's
@@ -18,3 +32,145 @@ Theorem C06_depth_bounded : forall fuel i v r,
   value_expr fuel i = POk v r -> (vexpr_depth v <= max_expr_depth)%nat.
 Proof. exact value_expr_depth_bounded. Qed.
 Print Assumptions C06_depth_bounded.
+
+(* ---------- loading ---------- *)
+
+(* For every file system and root — include graphs with self-includes and cycles of any length
+   included — load_impl's recursion is at most (number of files) deep: with any budget beyond
+   that the load ends with the entries or with a LoadError, never by exhausting the budget. *)
+Theorem C06_load_terminates : forall fs root fuel,
+  (length fs < fuel)%nat ->
+  exists out, loadc fuel fs [] root = (out, Done) \/ exists e, loadc fuel fs [] root = (out, Failed e).
+Proof. exact load_terminates. Qed.
+Print Assumptions C06_load_terminates.
+
+(* why: the stack of files being loaded never repeats a path and only holds files that exist
+   (stack_ok), every push keeps that, and so its depth is bounded by the number of files *)
+Theorem C06_include_stack_bounded : forall fs st,
+  stack_ok fs st ->
+  (length st <= length fs)%nat /\
+  (forall cp content, existsb (path_eqb cp) st = false -> lookup cp fs = Some content ->
+                      stack_ok fs (cp :: st)) /\
+  (forall fuel p, (length fs < fuel + length st)%nat -> snd (loadc fuel fs st p) <> OutOfFuel).
+Proof. exact include_stack_bounded. Qed.
+Print Assumptions C06_include_stack_bounded.
+
+(* the answer does not depend on the budget once it exceeds the number of files *)
+Theorem C06_load_result_stable : forall fs root f1 f2,
+  (length fs < f1)%nat -> (length fs < f2)%nat -> loadc f1 fs [] root = loadc f2 fs [] root.
+Proof. exact load_result_stable. Qed.
+Print Assumptions C06_load_result_stable.
+
+(* ---------- book-keeping ---------- *)
+
+(* report::process on resolved entries: a ledger or a BookKeepError with the index of the
+   failing entry; the unreachable!() of posting_price_event and the division of check_balance
+   are not reachable (corollary of C01_process_no_panic).  Decimals are exact in the model:
+   this is the property's "as long as numbers stay within the representable range". *)
+Theorem C06_process_total : forall es,
+  (exists s n, process es = (Ok s, n)) \/ (exists e n, process es = (Err e, n)).
+Proof. exact process_total. Qed.
+Print Assumptions C06_process_total.
+
+(* ... and with the declarations and the name stores of ReportContext in front *)
+Theorem C06_process_named_total : forall es, fst (process_named es) <> NPanic.
+Proof. exact process_named_no_panic. Qed.
+Print Assumptions C06_process_named_total.
+
+(* ---------- prices ---------- *)
+
+(* The only division of price_db.rs (insert_impl: price_with / price_of) never has a zero
+   divisor: for every sequence of ledger events and every price-DB file, zero rates and self
+   rates included, building the repository with the division checked gives the repository.
+   And compute_price_table ends for every order in which the heap may pop, with any budget
+   beyond some bound (corollary of C09_terminates). *)
+Theorem C06_price_total :
+  (forall recs e, insert_price_chk recs e = Some (insert_price recs e)) /\
+  (forall evs db, repository_chk evs db = Some (repository evs db)) /\
+  (forall choose recs target date,
+     exists fuel0, forall fuel, (fuel0 <= fuel)%nat ->
+       exists t, price_table fuel choose recs target date = PTDone t).
+Proof. exact price_total. Qed.
+Print Assumptions C06_price_total.
+
+(* ---------- queries ---------- *)
+
+(* Ledger::balance with any conversion and date range, and Ledger::eval with an exchange:
+   a value or a ConversionError, with any budget beyond some bound.  (Without a conversion
+   Model/Query.v's balance_report, postings_of and register_lines are plain total functions
+   with no hazard value.) *)
+Theorem C06_query_total : forall choose recs,
+  (forall s cv start end_,
+     exists fuel0, forall fuel, (fuel0 <= fuel)%nat ->
+       (exists b, balance_query fuel choose recs s cv start end_ = COk b) \/
+       (exists e, balance_query fuel choose recs s cv start end_ = CErr e)) /\
+  (forall a exchange date,
+     exists fuel0, forall fuel, (fuel0 <= fuel)%nat ->
+       (exists r, eval_exchange fuel choose recs a exchange date = COk r) \/
+       (exists e, eval_exchange fuel choose recs a exchange date = CErr e)).
+Proof. exact query_total. Qed.
+Print Assumptions C06_query_total.
+
+(* ---------- formatting ---------- *)
+
+(* The printer's one panicking operation on user data is `width_cjk(balance_str) - alignment`.
+   It underflows exactly when the width oracle gives the printed balance less than the length
+   of its head (the text up to the alignment point: digits and , . - + * / ( ) space) ... *)
+Theorem C06_format_hazard_iff : forall w b,
+  balance_underflow w b = true <-> (w (show_vexpr b) < length (vexpr_align_prefix b))%nat.
+Proof. exact balance_underflow_iff. Qed.
+Print Assumptions C06_format_hazard_iff.
+
+(* ... the printed balance is that head followed by nothing or by a space (the one between a
+   number and its commodity) and the rest ... *)
+Theorem C06_format_balance_shape : forall b,
+  exists rest, show_vexpr b = vexpr_align_prefix b ++ rest /\
+               forallb expr_punct (vexpr_align_prefix b) = true /\ tail_ok rest.
+Proof. exact format_balance_shape. Qed.
+Print Assumptions C06_format_balance_shape.
+
+(* ... so under head_width_ok (such a head followed by nothing or by a space and anything is at
+   least as wide as it is long) the hazard is unreachable for every entry list the parser
+   returns, wide and combining characters in accounts and commodities included.  An oracle that
+   gives printable ASCII its length and either is additive or is cut by a space (unicode-width
+   0.2: a right-to-left scan whose state a space resets) satisfies it. *)
+Theorem C06_format_total : forall w, head_width_ok w -> forall s es,
+  parse_ledger s = LOk es -> existsb (entry_hazard w) (map e_entry es) = false.
+Proof. exact format_total. Qed.
+Print Assumptions C06_format_total.
+
+Theorem C06_format_oracles : forall w, ascii_width_ok w ->
+  ((forall a b, w (a ++ b) = (w a + w b)%nat) -> head_width_ok w) /\ (space_cut w -> head_width_ok w).
+Proof. exact format_oracles. Qed.
+Print Assumptions C06_format_oracles.
+
+(* ---------- literals ---------- *)
+
+(* PrettyDecimal::from_str: every value of the i128 accumulator fits (the checked operations
+   never wrap), the answer is a Decimal that fits 96 bits and scale 28 or an error; Display's
+   `len - scale` cannot underflow for any decimal *)
+Theorem C06_literal_total :
+  (forall l s, Lit.run Lit.st0 0%N l = Lit.Cont s -> (0 <= Lit.mantissa s <= Lit.i128_max)%Z) /\
+  (forall l, (exists d, Lit.scan l = Lit.SOk d /\ wf_pdec d) \/ (exists e, Lit.scan l = Lit.SErr e)) /\
+  (forall d, (Lit.scale d < length (Lit.pad_zeros (S (Lit.scale d)) (Lit.digits_of (Lit.mant d))))%nat).
+Proof. exact literal_total. Qed.
+Print Assumptions C06_literal_total.
+
+(* ---------- the commands, end to end ---------- *)
+
+(* For every text: parse; on success print (format) and book (process, names resolved through
+   the stores); build the price repository from the ledger's events and any price DB; answer
+   the balance query with the given -X / --historical / --now / date range, and list the
+   postings (register).  The result is a parse error, a book-keeping error with its entry, an
+   unknown -X commodity, a conversion error, or the report — never the hazard value of a stage. *)
+Theorem C06_pipeline_total : forall w choose o s, head_width_ok w ->
+  exists fuel0, forall fuel, (fuel0 <= fuel)%nat ->
+    forall st, pipeline w fuel choose o s <> PlHazard st.
+Proof. exact pipeline_never_hazard. Qed.
+Print Assumptions C06_pipeline_total.
+
+(* without -X no budget is involved *)
+Theorem C06_pipeline_plain_total : forall w choose o s fuel st,
+  head_width_ok w -> ro_exchange o = None -> pipeline w fuel choose o s <> PlHazard st.
+Proof. exact pipeline_plain_never_hazard. Qed.
+Print Assumptions C06_pipeline_plain_total.
